@@ -45,6 +45,24 @@ def handle (slots : Slots) (op : String) (args : List String) : Option (Slots ×
     match SS.pull prims s inp ad with
     | .fail => some (slots, s!"-1 0 255 {toHex (List.replicate cap 0x5c)} {stHex s}")
     | .ok s' m tag => some (slots.setIfInBounds slot (some s'), s!"0 {m.length} {tag.toNat} {toHex m} {stHex s'}")
+  | "ss.pushx", [slot, tag, m, ad, flags] => do
+    -- optional-pointer call forms of push (m == NULL for an empty message, outlen_p == NULL): the chunk and the state are the same
+    let slot ← parseNat? slot; let tag ← parseNat? tag; let m ← ofHex m; let ad ← ofHex ad; let fl ← parseNat? flags
+    if fl > 3 ∨ (fl % 2 = 1 ∧ m.length ≠ 0) then none else
+    let s ← (slots.getD slot none)
+    let r := SS.push prims s m ad (UInt8.ofNat tag)
+    some (slots.setIfInBounds slot (some r.1), s!"0 {toHex r.2} {stHex r.1}")
+  | "ss.pullx", [slot, inp, ad, flags] => do
+    -- optional-pointer call forms of pull (m == NULL for an empty message, mlen_p == NULL, tag_p == NULL): same verdict, same state change
+    let slot ← parseNat? slot; let inp ← ofHex inp; let ad ← ofHex ad; let fl ← parseNat? flags
+    let cap := inp.length - 17
+    if fl > 7 ∨ (fl % 2 = 1 ∧ cap ≠ 0) then none else
+    let s ← (slots.getD slot none)
+    let fm (v : String) := if (fl / 2) % 2 = 1 then "x" else v
+    let ft (v : String) := if (fl / 4) % 2 = 1 then "x" else v
+    match SS.pull prims s inp ad with
+    | .fail => some (slots, s!"-1 {fm "0"} {ft "255"} {toHex (List.replicate cap 0x5c)} {stHex s}")
+    | .ok s' m tag => some (slots.setIfInBounds slot (some s'), s!"0 {fm (toString m.length)} {ft (toString tag.toNat)} {toHex m} {stHex s'}")
   | _, _ => none
 
 end Sodium.Driver.C09
